@@ -2,6 +2,7 @@ package rules
 
 import (
 	"fmt"
+	"go/types"
 	"sort"
 	"strings"
 
@@ -249,6 +250,7 @@ func checkC03(c *Ctx) {
 		}
 		c.borrow("C06", func() { c.c06WithTTL() }, func(o *coreObl) (string, bool) { return "R05.6", o.Rule == "R06.3" })
 	}, func(o *coreObl) (string, bool) { return "R03.4", o.Rule == "R05.6" || o.Rule == "R05.3" })
+	c.c03ExpiryErrorTypes()
 }
 
 func (c *Ctx) c03Sibling(fo *FO) {
@@ -604,4 +606,56 @@ func (fo *FO) staleClasses(p *pw.Path, rerr, zero *pw.Val) []string {
 		}
 	}
 	return out
+}
+
+// c03ExpiryErrorTypes: the frontends recognise a stale entry with errors.As into their expired-item interface. Every in-module
+// expiry error must be assignable to the interface of every frontend that can sit on its backend: errExpired (ShardedMap, SyncMap)
+// to ErrWithExpiredItem and to ErrWithExpiredItemOf[any] (FailoverOf[any] over a non-generic backend), errExpiredOf[V] to
+// ErrWithExpiredItemOf[V]. A method added to one interface only makes errors.As fail silently: stale values are then treated as
+// absent.
+func (c *Ctx) c03ExpiryErrorTypes() {
+	r := c.R
+	scope := c.Pkg.Types.Scope()
+	ifNon, _ := scope.Lookup("ErrWithExpiredItem").(*types.TypeName)
+	ifGen, _ := scope.Lookup("ErrWithExpiredItemOf").(*types.TypeName)
+	errNon := c.lookupType("errExpired")
+	errGen := c.lookupType("errExpiredOf")
+	if ifNon == nil || ifGen == nil || errNon == nil || errGen == nil {
+		r.Unknown("R03.3", "expiry-error-types", "expired-item interfaces or error types do not resolve")
+		return
+	}
+	anyT := types.Universe.Lookup("any").Type()
+	inst := func(tn *types.TypeName) types.Type {
+		n, ok := tn.Type().(*types.Named)
+		if !ok || n.TypeParams().Len() != 1 {
+			return tn.Type()
+		}
+		t, err := types.Instantiate(nil, n, []types.Type{anyT}, false)
+		if err != nil {
+			return nil
+		}
+		return t
+	}
+	impl := func(t, iface types.Type) bool {
+		if t == nil || iface == nil {
+			return false
+		}
+		it, ok := iface.Underlying().(*types.Interface)
+		return ok && (types.Implements(t, it) || types.Implements(types.NewPointer(t), it))
+	}
+	checks := []struct {
+		name  string
+		t, it types.Type
+	}{
+		{"errExpired→ErrWithExpiredItem", errNon.Type(), ifNon.Type()},
+		{"errExpired→ErrWithExpiredItemOf[any]", errNon.Type(), inst(ifGen)},
+		{"errExpiredOf[any]→ErrWithExpiredItemOf[any]", inst(errGen), inst(ifGen)},
+	}
+	for _, ck := range checks {
+		if impl(ck.t, ck.it) {
+			r.OK("R03.3", ck.name, "assignable: errors.As in the frontend recognises this backend's expiry error")
+		} else {
+			r.Bad("R03.3", ck.name, "expiry-error-not-recognised", c.Pos(errNon.Pos()), "this expiry error type does not implement the expired-item interface a frontend matches with errors.As: expired entries of that backend are treated as absent (no stale serving, no fallback on build failure)", nil)
+		}
+	}
 }
